@@ -96,6 +96,12 @@ def judge(case, envs, rfun=None):
         if not (r.data_type & h.data_type):
             return ('type-changed', {'input_type': str(h.data_type), 'output_type': str(r.data_type)}, fired, 0, {})
         hin, hout = h, r
+    rep = []
+    _invariant().check_any(r, rep, '$')
+    if rep:
+        where, clause, parent, det = rep[0]
+        return ('invalid-output', {'where': where, 'clause': clause, 'node': str(parent), 'detail': str(det)[:160],
+                                   'output_text': str(r)[:300]}, fired, 0, {})
     readings = S.readings_for(hin, hout)
     cmp = S.compare_values(S.compile_all(hin, True, readings), S.compile_all(hout, False, readings), envs)
     if cmp.witness is not None:
@@ -103,6 +109,18 @@ def judge(case, envs, rfun=None):
         d['output_text'] = str(r)[:300]
         return ('meaning-changed', d, fired, cmp.judged, cmp.skipped)
     return (None, {'output_text': str(r)[:200]}, fired, cmp.judged, cmp.skipped)
+
+
+_INV = []
+
+
+def _invariant():
+    if not _INV:
+        from hpl.types import DataType
+
+        from ..model import typeset, typing as TY
+        _INV.append(TY.Invariant(typeset.Bridge(DataType)))
+    return _INV[0]
 
 
 def _expr_of(h):
